@@ -345,7 +345,7 @@ def check_any(case, scratch, stats=None):
 
 
 def shard_names(shard, nshards, tier, seed, scratch):
-    total = 6000 if tier == 'quick' else 90000
+    total = 14000 if tier == 'quick' else 120000
     stats = Stats()
     fails = run_hypothesis(st.one_of(st_names_case(), st_names_case(), st_names_case(), st_names_case(), st_direct_case()), lambda c: check_any(c, scratch, stats), max(1, total // nshards), seed, shrink_budget=200 if tier == 'quick' else 1500)
     for f in fails:
